@@ -1,10 +1,11 @@
 """C01 - legal move generation is exactly the rules of chess (necessary conditions only)."""
-from . import attackrules, genrules
+from . import attackrules, genrules, emitrules
 
 
 def run(ctx):
     facts = ctx.facts("dev")
     ctx.decided += [
+        'N7 the semilegal generator, read as set algebra over the iterated bitboards (rules/emitrules.py), emits the move S->D of each (kind, piece) exactly when the rules allow it: all 64x64 square pairs x abstract boards (destination, blockers, en-passant mark), both colours; sliding lookups taken as what C15/T2-T3 prove them to be; castling is rule G4/N5; with N1 (legal = semilegal filtered by the checker) and N4 (the checker) this ties legal generation to the rules',
         "N1 each legal::gen_* is its same-named semilegal::gen_* retained by Checker<DefaultPrechecker>::is_legal (un-negated); "
         "LegalFilter forwards a move iff is_legal; Move::validate = semi_validate then is_legal_unchecked (Checker<NilPrechecker>)",
         "N2 the pre-filter answers Some(true) only when not in check, the mover is neither pinned nor the king and the move is not en "
@@ -24,3 +25,4 @@ def run(ctx):
     attackrules.sibling_rules(ctx, facts, "N4a")
     genrules.castling_rule(ctx, facts, "N5")
     genrules.partition_rule(ctx, facts, "N6")
+    emitrules.emitter_rule(ctx, facts, 'N7')
